@@ -627,7 +627,7 @@ PROPS = {
         "Hd.Pool.C04_released_connection_is_kept", "Hd.Pool.C04_cancel_returns_unused", "Hd.Pool.C04_only_polls_dial", "Hd.Pool.dropCheckout_dials", "Hd.Builder.pool_survives"], leaf=True, cfgp=True),
     "C05": pool_prop("HdModel.Props.C05", ["C05/"], ["Hd.Pool.C05_pop_spec", "Hd.Pool.C05_expired_head", "Hd.Pool.C05_no_timeout_never_expires",
         "Hd.Pool.C05_pop_suffix", "Hd.Pool.C05_issue_fresh", "Hd.Builder.pool_survives",
-        "Hd.Pool.C05_pop_conserves", "Hd.Pool.C05_pop_drops_only_closed", "Hd.Pool.C05_no_timeout_drops_only_closed"], timed=True, leaf=True, cfgp=True),
+        "Hd.Pool.C05_pop_conserves", "Hd.Pool.C05_pop_drops_only_closed", "Hd.Pool.C05_no_timeout_drops_only_closed", "Hd.Pool.C05_pop_split"], timed=True, leaf=True, cfgp=True),
     "C06": pool_prop("HdModel.Props.C06", ["C06/"], ["Hd.Pool.C06_request_gets_own_origin", "Hd.Pool.C06_held_same_origin",
         "Hd.Pool.C06_idle_same_origin", "Hd.Pool.step_originInv", "Hd.Pool.run_originInv", "Hd.Pool.step_coSame",
         "Hd.Pool.C06_tokenOf", "Hd.Pool.C06_tokens_distinct", "Hd.Pool.C06_new_conn_origin", "Hd.Pool.keysOk_init"], mt=True),
